@@ -41,6 +41,7 @@ GEN_TYPES = {
     "line_dc": {
         "GEN_linedc_g": {"r_ohm_per_km": 0.05, "max_i_ka": 1.0, "g_us_per_km": 0.5, "type": "ol", "alpha": 0.004},
         "GEN_linedc_min": {"r_ohm_per_km": 0.02, "max_i_ka": 2.0},
+        "GEN_linedc_r0": {"r_ohm_per_km": 0.05, "max_i_ka": 1.0, "r0_ohm_per_km": 0.1, "alpha": 0.004, "type": "cs"},
     },
     "trafo": {
         "GEN_trafo_full": {"sn_mva": 25., "vn_hv_kv": 110., "vn_lv_kv": 20., "vk_percent": 12., "vkr_percent": 0.41,
@@ -220,7 +221,8 @@ _LIMITS = [D("max_p", max_p_mw=S(2.)), D("max_p_l", max_p_mw=L(2., NAN, 3.)), D(
            D("ctrl_nanl", controllable=L(True, NAN, False))]
 _COMMON = [D("insvc_F", in_service=S(False)), D("insvc_l", in_service=L(True, False, True)), D("cust", cust=S(7.5)),
            D("cust_l", cust=L(1., 2., 3.))]
-_BUSV = {"perm": L(1, 0, 2), "dup": L(2, 2, 4)}
+# perm/perm2: bus ids that are a permutation of the ids the new elements get in an empty table (label alignment hazards)
+_BUSV = {"perm": L(1, 0, 2), "dup": L(2, 2, 4), "perm2": L(2, 0, 1)}
 _TDPF = [D("tdpf", tdpf=S(True)), D("wind", wind_speed_m_per_s=S(0.6)), D("wind_l", wind_speed_m_per_s=L(0.6, NAN, 0.8)),
          D("tdpf_all", tdpf=S(True), wind_speed_m_per_s=S(0.6), wind_angle_degree=S(45.), conductor_outer_diameter_m=S(0.03),
            air_temperature_degree_celsius=S(35.), reference_temperature_degree_celsius=S(20.),
@@ -266,7 +268,11 @@ PAIRS = {
                  base={"length_km": S(1.5), "std_type": S("NAYY 4x50 SE")}, std=("line", "std_type"),
                  opt=_LINE_OPT + _TDPF + _COMMON + [
                      D("std_l", std_type=L("NAYY 4x50 SE", "149-AL1/24-ST1A 110.0", "GEN_line_zero")),
-                     D("std_l2", std_type=L("GEN_line_min", "GEN_line_zero", "NA2XS2Y 1x95 RM/25 12/20 kV"))]),
+                     D("std_l2", std_type=L("GEN_line_min", "GEN_line_zero", "NA2XS2Y 1x95 RM/25 12/20 kV")),
+                     # mixed lists: types with / without optional (zero sequence, g, alpha) parameters in both orders
+                     D("std_l3", std_type=L("GEN_line_zero", "GEN_line_min", "GEN_line_zero")),
+                     D("std_l4", std_type=L("GEN_line_min", "NAYY 4x50 SE", "GEN_line_zero")),
+                     D("std_l5", std_type=L("GEN_line_zero", "GEN_line_zero", "GEN_line_min"))]),
     "line_par": dict(single="create_line_from_parameters", batch="create_lines_from_parameters", table="line",
                      node_args=["from_buses", "to_buses"],
                      vec={k: {"from_buses": v["from"], "to_buses": v["to"]} for k, v in _BR.items()},
@@ -283,7 +289,9 @@ PAIRS = {
                     vec={"chain": {"from_buses_dc": L(0, 1, 0), "to_buses_dc": L(1, 2, 2)},
                          "same": {"from_buses_dc": L(1, 1, 1), "to_buses_dc": L(2, 2, 2)}},
                     base={"length_km": S(10.), "std_type": S("2400-CU")}, std=("line_dc", "std_type"),
-                    opt=_LINE_OPT + _COMMON + [D("std_l", std_type=L("2400-CU", "GEN_linedc_g", "GEN_linedc_min"))]),
+                    opt=_LINE_OPT + _COMMON + [D("std_l", std_type=L("2400-CU", "GEN_linedc_g", "GEN_linedc_min")),
+                                               D("std_l2", std_type=L("GEN_linedc_min", "GEN_linedc_r0", "2400-CU")),
+                                               D("std_l3", std_type=L("GEN_linedc_r0", "GEN_linedc_min", "GEN_linedc_r0"))]),
     "line_dc_par": dict(single="create_line_dc_from_parameters", batch="create_lines_dc_from_parameters",
                         table="line_dc", node_table="bus_dc", node_args=["from_buses_dc", "to_buses_dc"],
                         vec={"chain": {"from_buses_dc": L(0, 1, 0), "to_buses_dc": L(1, 2, 2)},
@@ -433,7 +441,11 @@ PAIRS = {
                      vec={"gen": {"elements": L(2, 1, 0), "et": S("gen")},
                           "gen_l": {"elements": L(2, 1, 0), "et": L("gen", "gen", "gen")},
                           "mix": {"elements": L(2, 1, 3), "et": L("gen", "load", "sgen")},
-                          "same_idx": {"elements": L(1, 1, 1), "et": L("load", "storage", "sgen")}},
+                          "same_idx": {"elements": L(1, 1, 1), "et": L("load", "storage", "sgen")},
+                          # one element with several power types inside one call (singles accept p and q for one element)
+                          "pq_same": {"elements": L(2, 2, 1), "et": S("gen"), "power_type": L("p", "q", "q")},
+                          "pq_same_l": {"elements": L(2, 2, 2), "et": L("gen", "gen", "gen"), "power_type": L("q", "p", "q")},
+                          "qp_mix": {"elements": L(0, 2, 0), "et": L("load", "gen", "load"), "power_type": L("p", "q", "q")}},
                      needs_elements=True, cost=True,
                      base={"points": L([[0, 1, 1]], [[0, 1, 1], [1, 2, 2]], [[0, 2, 3], [2, 3, 4], [3, 4, 5]])},
                      opt=[D("pts_same", points=L([[0, 1, 1]], [[0, 1, 1]], [[0, 1, 1]])), D("q", power_type=S("q")),
